@@ -125,6 +125,12 @@ func genLivingCase(prop, tier string, r *rand.Rand) *Case {
 				// what a time.Duration can hold)
 				tp.year = ty - 300 - r.IntN(600)
 			}
+			if r.IntN(3) == 0 {
+				// no birth on record, only the baptism (a parish register)
+				tp.role = "dead-by-age-baptism-only"
+				tp.p.Events = append(tp.p.Events, Event{Tag: "BAPM", Date: exactDate(tp.year), Place: tp.place})
+				break
+			}
 			tp.p.Events = append(tp.p.Events, Event{Tag: "BIRT", Date: exactDate(tp.year), Place: tp.place})
 		case 4: // living by the age rule
 			tp.role = "living-by-age"
